@@ -144,7 +144,9 @@ var c06DerivSubsOdd = []string{"a b", "a#b", "a%20b", "módulo", "a@1.0.0", "a?b
 // relative operands: plain ones, and names holding every character that has
 // a meaning somewhere in the address syntax
 var c06DerivLocals = []string{"./", "./x", "../", "../y", "../../z", "./a/b",
-	"./a?b", "./?", "./a#b", "./a@1.0.0", "./a%20b", "./a%2Fb", "./a b", "./a:b", "./a::b", "./a=b&c", "../q?ref=x", "./git::x", "./x.tgz", "./a;b", "./a+b", "./~a", "./a\\b", "./a'b\"c", "./ü/テ"}
+	"./a?b", "./?", "./a#b", "./a@1.0.0", "./a%20b", "./a%2Fb", "./a b", "./a:b", "./a::b", "./a=b&c", "../q?ref=x", "./git::x", "./x.tgz", "./a;b", "./a+b", "./~a", "./a\\b", "./a'b\"c", "./ü/テ",
+	// not valid UTF-8 (a local path may hold any bytes; what comes out of a resolution must still print and parse back)
+	"./a\xff", "./caf\xe9/x", "../\xc3\x28"}
 var c06DerivVersions = []string{"1.0.0", "0.0.0", "2.1.0-beta.2", "1.0.0+build.7", "3.0.0-rc.1+exp.sha.5114f85"}
 
 type c06Val struct {
@@ -301,6 +303,9 @@ func c06Examine(env *fw.Env, rnd *fw.Rand, s string) fw.Result {
 
 // literals from the repository's own tests and documentation
 var c06Corpus = []string{
+	// query strings in which the text of one argument occurs inside another
+	"https://example.com/foo?unarchive=tar.gz&archive=tar.gz", "https://example.com/foo?skiparchive=tar.gz&archive=tar.gz//sub", "https://example.com/foo//sub?note=archive=tar.gz&archive=tar.gz",
+	"https://example.com/foo?xarchive=tgz&archive=tar.gz", "https://example.com/foo?archive=tar.gz&unarchive=tar.gz", "git::https://example.com/r.git?xref=a&ref=b", "git::https://example.com/r.git//m?ref=x&href=ref=y",
 	"./boop", "../boop", "./boop/../beep", ".", "..", "./", "../", "./.", "hashicorp/subnets/cidr", "hashicorp/subnets/cidr//blah/blah",
 	"terraform.example.com/bleep/bloop/blorp", "テラフォーム.example.com/bleep/bloop/blorp", "github.com/hashicorp/go-slug", "github.com/hashicorp/go-slug.git",
 	"github.com/hashicorp/go-slug/bleep", "gitlab.com/hashicorp/go-slug", "gitlab.com/hashicorp/go-slug.git", "gitlab.com/hashicorp/go-slug/bleep", "gitlab.com/hashicorp/go-slug/bleep/bloop",
